@@ -38,6 +38,19 @@ def check_doc(part, sess, P, text, T, rng, max_ids, open_ids=frozenset()):
             else: part.fail("references on the type-position identifier %r (hidden by a local) at %d:%d returns %r; neither the type's occurrences %r nor the known wrong answer %r" % (tk.text, l, c, got, want_true, want_known),
                             {"kind": "references", "text": text, "line": l, "character": c, "expected": want_true})
             continue
+        if isinstance(b, gen.Decl) and b.kind in ("var", "param") and b.proc is not None and b.name == b.proc.name and "K-C13-2" in open_ids:
+            # known class K-C13-2: a parameter/local named like its own enclosing procedure is answered as if it were the procedure
+            l, c = rng.choice(feat.columns(rng, T, tk))
+            p_ = tdp(uri, l, c); p_["context"] = {"includeDeclaration": True}
+            res = sess.result("textDocument/references", p_); part.ev()
+            got = sorted(feat.rkey(x["range"]) for x in res) if isinstance(res, list) else res
+            want_true = sorted(feat.rkey(feat.rng_of(T, t)) for t in group if t is not tk)
+            want_known = sorted(feat.rkey(feat.rng_of(T, t)) for t in occ[feat.bkey(b.proc)] if t is not tk)
+            if got == want_true: part.see(("references", "local-named-like-own-procedure"))
+            elif got == want_known: part.known("K-C13-2", "known class"); part.add("known_classes_seen", "K-C13-2/references")
+            else: part.fail("references on %r (local named like its own procedure) at %d:%d returns %r; neither the local's occurrences %r nor the known wrong answer %r" % (tk.text, l, c, got, want_true, want_known),
+                            {"kind": "references", "text": text, "line": l, "character": c, "expected": want_true})
+            continue
         l, c = rng.choice(feat.columns(rng, T, tk))
         kind = b.kind if isinstance(b, gen.Decl) else "predefined"
         cls = (kind, tk.role, min(len(group), 4))
